@@ -530,6 +530,498 @@ Proof.
   - intros H. apply Hkeys. cbn [okey]. apply isort_perm. apply same_ucycle_perm. exact H.
 Qed.
 
+(** * forest_iff_count: a simple undirected graph is acyclic iff #components = n - m *)
+
+(** Undirected simple graphs as edge lists (each edge once, in one orientation). *)
+Definition adj (es : list (nat * nat)) (u v : nat) : Prop := In (u, v) es \/ In (v, u) es.
+Definition econn (es : list (nat * nat)) : nat -> nat -> Prop := reach (adj es).
+Inductive simple_edges (n : nat) : list (nat * nat) -> Prop :=
+| se_nil : simple_edges n []
+| se_cons u v rest : u < n -> v < n -> u <> v -> ~ adj rest u v -> simple_edges n rest ->
+                     simple_edges n ((u, v) :: rest).
+Definition forest (es : list (nat * nat)) : Prop := ~ exists c, 3 <= length c /\ simple_cycle (adj es) c.
+
+(** Naive union-find: processing an edge relabels the class of one end point into the other's. *)
+Definition relabel (a b : nat) (lab : list nat) : list nat := map (fun x => if x =? a then b else x) lab.
+Fixpoint uf (n : nat) (es : list (nat * nat)) : list nat :=
+  match es with
+  | [] => seq 0 n
+  | (u, v) :: rest => let lab := uf n rest in relabel (nthn lab u) (nthn lab v) lab
+  end.
+(** Number of edges that joined two different classes when they were added. *)
+Fixpoint merges (n : nat) (es : list (nat * nat)) : nat :=
+  match es with
+  | [] => 0
+  | (u, v) :: rest => let lab := uf n rest in (if nthn lab u =? nthn lab v then 0 else 1) + merges n rest
+  end.
+
+Lemma adj_sym es u v : adj es u v -> adj es v u.
+Proof. unfold adj. tauto. Qed.
+
+Lemma adj_cons e es x y : adj (e :: es) x y <-> adj es x y \/ e = (x, y) \/ e = (y, x).
+Proof. unfold adj. simpl. tauto. Qed.
+
+Lemma econn_sym es u v : econn es u v -> econn es v u.
+Proof. apply reach_sym. apply adj_sym. Qed.
+
+Lemma econn_mono e es u v : econn es u v -> econn (e :: es) u v.
+Proof. apply reach_mono. intros a b H. apply adj_cons. left. exact H. Qed.
+
+Lemma simple_edges_range n es u v : simple_edges n es -> adj es u v -> u < n /\ v < n.
+Proof.
+  intros H. induction H as [|a b rest Ha Hb Hab Hn Hs IH]; intros Hadj.
+  - destruct Hadj as [[]|[]].
+  - apply adj_cons in Hadj. destruct Hadj as [H|[H|H]]; [apply IH; exact H| |]; inversion H; subst; auto.
+Qed.
+
+Lemma uf_length n es : length (uf n es) = n.
+Proof.
+  induction es as [|[u v] rest IH]; simpl; [apply seq_length|].
+  unfold relabel. rewrite map_length. exact IH.
+Qed.
+
+Lemma nthn_relabel a b lab x : x < length lab ->
+  nthn (relabel a b lab) x = if nthn lab x =? a then b else nthn lab x.
+Proof. intros H. unfold nthn, relabel. rewrite (nth_map_lt _ lab x 0 0) by exact H. reflexivity. Qed.
+
+Lemma nthn_seq n x : x < n -> nthn (seq 0 n) x = x.
+Proof. intros H. unfold nthn. rewrite seq_nth by exact H. reflexivity. Qed.
+
+(** Labels = connectivity. *)
+Lemma uf_conn n es : simple_edges n es ->
+  forall x y, x < n -> y < n -> (nthn (uf n es) x = nthn (uf n es) y <-> econn es x y).
+Proof.
+  intros Hs. induction Hs as [|u v rest Hu Hv Huv Hn Hs IH]; intros x y Hx Hy.
+  - simpl. rewrite !nthn_seq by assumption. split.
+    + intros E; subst. apply reach_refl.
+    + intros H. inversion H as [|? z ? Hxz _]; auto. destruct Hxz as [[]|[]].
+  - cbn [uf]. cbv zeta. set (lab := uf n rest) in *.
+    assert (Hl : length lab = n) by apply uf_length.
+    rewrite !nthn_relabel by lia.
+    assert (Euv : adj ((u, v) :: rest) u v) by (apply adj_cons; right; left; reflexivity).
+    split.
+    + intros E.
+      destruct (Nat.eqb_spec (nthn lab x) (nthn lab u)) as [Ex|Ex];
+      destruct (Nat.eqb_spec (nthn lab y) (nthn lab u)) as [Ey|Ey].
+      * apply econn_mono. apply IH; auto. congruence.
+      * apply (IH x u Hx Hu) in Ex. symmetry in E. apply (IH y v Hy Hv) in E.
+        eapply reach_trans; [apply econn_mono; exact Ex|].
+        eapply reach_step; [exact Euv|]. apply econn_mono. apply econn_sym. exact E.
+      * apply (IH y u Hy Hu) in Ey. apply (IH x v Hx Hv) in E.
+        eapply reach_trans; [apply econn_mono; exact E|].
+        eapply reach_step; [apply adj_sym; exact Euv|]. apply econn_mono. apply econn_sym. exact Ey.
+      * apply econn_mono. apply IH; auto.
+    + intros H.
+      assert (Hstep : forall a b, a < n -> b < n -> adj ((u, v) :: rest) a b ->
+                (if nthn lab a =? nthn lab u then nthn lab v else nthn lab a) =
+                (if nthn lab b =? nthn lab u then nthn lab v else nthn lab b)).
+      { intros a b Ha Hb Hab. apply adj_cons in Hab. destruct Hab as [Hab|[Hab|Hab]].
+        - assert (E : nthn lab a = nthn lab b) by (apply IH; auto; apply reach_one; exact Hab).
+          rewrite E. reflexivity.
+        - inversion Hab; subst a b. rewrite Nat.eqb_refl.
+          destruct (nthn lab v =? nthn lab u); reflexivity.
+        - inversion Hab; subst a b. rewrite Nat.eqb_refl.
+          destruct (nthn lab v =? nthn lab u); reflexivity. }
+      assert (Hse : simple_edges n ((u, v) :: rest)) by (constructor; auto).
+      revert Hx. induction H as [a|a z b Haz Hzb IHr]; intros Ha; [reflexivity|].
+      destruct (simple_edges_range n _ a z Hse Haz) as [_ Hz].
+      rewrite (Hstep a z Ha Hz Haz). apply IHr; auto.
+Qed.
+
+(** Counting distinct labels. *)
+Lemma relabel_same a lab : relabel a a lab = lab.
+Proof.
+  unfold relabel. induction lab as [|x t IH]; simpl; auto. rewrite IH.
+  destruct (Nat.eqb_spec x a); congruence.
+Qed.
+
+Lemma In_relabel a b lab x : In b lab -> a <> b -> (In x (relabel a b lab) <-> x <> a /\ In x lab).
+Proof.
+  intros Hb Hab. unfold relabel. rewrite in_map_iff. split.
+  - intros [y [E Hy]]. destruct (Nat.eqb_spec y a) as [Ey|Ey]; subst; split; auto.
+  - intros [Hx Hin]. exists x. split; auto. destruct (Nat.eqb_spec x a); congruence.
+Qed.
+
+Lemma n_labels_relabel a b lab :
+  a <> b -> In a lab -> In b lab -> S (n_labels (relabel a b lab)) = n_labels lab.
+Proof.
+  intros Hab Ha Hb. unfold n_labels.
+  change (S (length (nodup Nat.eq_dec (relabel a b lab)))) with (length (a :: nodup Nat.eq_dec (relabel a b lab))).
+  apply Permutation_length. apply NoDup_Permutation.
+  - constructor; [|apply NoDup_nodup]. rewrite nodup_In, In_relabel by assumption. intros [H _]; congruence.
+  - apply NoDup_nodup.
+  - intros x. simpl. rewrite !nodup_In, In_relabel by assumption.
+    destruct (Nat.eq_dec x a); subst; intuition congruence.
+Qed.
+
+Lemma n_labels_seq n : n_labels (seq 0 n) = n.
+Proof. unfold n_labels. rewrite nodup_fixed_point by apply seq_NoDup. apply seq_length. Qed.
+
+Lemma uf_count n es : simple_edges n es -> n_labels (uf n es) + merges n es = n.
+Proof.
+  intros Hs. induction Hs as [|u v rest Hu Hv Huv Hn Hs IH]; simpl; [rewrite n_labels_seq; lia|].
+  set (lab := uf n rest) in *. assert (Hl : length lab = n) by apply uf_length.
+  destruct (Nat.eqb_spec (nthn lab u) (nthn lab v)) as [E|E].
+  - rewrite E, relabel_same. simpl. exact IH.
+  - pose proof (n_labels_relabel _ _ lab E (nthn_In lab u ltac:(lia)) (nthn_In lab v ltac:(lia))). lia.
+Qed.
+
+Lemma merges_le n es : merges n es <= length es.
+Proof.
+  induction es as [|[u v] rest IH]; simpl; auto.
+  destruct (nthn (uf n rest) u =? nthn (uf n rest) v); simpl; lia.
+Qed.
+
+(** Same kernel => same number of distinct labels. *)
+Lemma n_labels_kernel : forall (l1 l2 : list nat),
+  length l1 = length l2 ->
+  (forall i j, i < length l1 -> j < length l1 -> (nthn l1 i = nthn l1 j <-> nthn l2 i = nthn l2 j)) ->
+  n_labels l1 = n_labels l2.
+Proof.
+  induction l1 as [|x1 t1 IH]; intros [|x2 t2] Hlen Hk; simpl in Hlen; try lia.
+  assert (IHt : n_labels t1 = n_labels t2).
+  { apply IH; [lia|]. intros i j Hi Hj. apply (Hk (S i) (S j)); simpl; lia. }
+  unfold n_labels in *. simpl.
+  assert (Hin : In x1 t1 <-> In x2 t2).
+  { split; intros H; apply In_nthn in H; destruct H as [i [Hi Ei]].
+    - assert (E : nthn (x2 :: t2) (S i) = nthn (x2 :: t2) 0).
+      { apply (Hk (S i) 0); simpl; try lia. exact Ei. }
+      unfold nthn in E. simpl in E. rewrite <- E. apply nth_In. lia.
+    - assert (E : nthn (x1 :: t1) (S i) = nthn (x1 :: t1) 0).
+      { apply (Hk (S i) 0); simpl; try lia. exact Ei. }
+      unfold nthn in E. simpl in E. rewrite <- E. apply nth_In. lia. }
+  destruct (in_dec Nat.eq_dec x1 t1) as [H1|H1]; destruct (in_dec Nat.eq_dec x2 t2) as [H2|H2];
+    try tauto; simpl; lia.
+Qed.
+
+(** Cycles and the last edge added. *)
+Lemma chain_mono (E F : nat -> nat -> Prop) l : (forall a b, E a b -> F a b) -> chain E l -> chain F l.
+Proof.
+  intros H. induction l as [|x t IH]; simpl; auto. intros [A B]. split; auto.
+  destruct t; auto.
+Qed.
+
+Lemma NoDup_app_disjoint {A} (l1 l2 : list A) x : NoDup (l1 ++ l2) -> In x l1 -> In x l2 -> False.
+Proof.
+  induction l1 as [|y t IH]; simpl; [tauto|]. intros H [E|Hin] H2; inversion H; subst.
+  - apply H3. apply in_or_app. right. exact H2.
+  - apply IH; auto.
+Qed.
+
+Lemma hd_app_single (l1 : list nat) a rest : hd 0 (l1 ++ [a]) = hd 0 (l1 ++ a :: rest).
+Proof. destruct l1; reflexivity. Qed.
+
+Lemma chain_split_pair (F R : nat -> nat -> Prop) (u v : nat) :
+  (forall a b, F a b -> R a b \/ (a = u /\ b = v) \/ (a = v /\ b = u)) ->
+  forall l, NoDup l -> chain F l ->
+    chain R l \/
+    exists l1 a b l2, l = l1 ++ a :: b :: l2 /\ ((a = u /\ b = v) \/ (a = v /\ b = u)) /\
+                      chain R (l1 ++ [a]) /\ chain R (b :: l2).
+Proof.
+  intros HF. induction l as [|x t IH]; intros Hnd Hch; [left; simpl; auto|].
+  inversion Hnd as [|? ? Hx Hnt]; subst. apply chain_cons in Hch. destruct Hch as [Hh Hct].
+  destruct (IH Hnt Hct) as [HR|[l1 [a [b [l2 [E [Hp [C1 C2]]]]]]]].
+  - destruct t as [|y t']; [left; simpl; auto|].
+    destruct (HF x y (Hh ltac:(discriminate))) as [Hr|Hpair].
+    + left. apply chain_cons. split; auto.
+    + right. exists [], x, y, t'. split; [reflexivity|]. split; [exact Hpair|]. split; [simpl; auto | exact HR].
+  - right. assert (Hne : t <> []) by (subst t; destruct l1; discriminate).
+    assert (Hxa : x <> a) by (intros E'; subst x; apply Hx; subst t; apply in_or_app; right; left; reflexivity).
+    assert (Hxb : x <> b) by (intros E'; subst x; apply Hx; subst t; apply in_or_app; right; right; left; reflexivity).
+    destruct (HF x (hd 0 t) (Hh Hne)) as [Hr|[[E1 E2]|[E1 E2]]].
+    + exists (x :: l1), a, b, l2. split; [subst t; reflexivity|]. split; [exact Hp|]. split; [|exact C2].
+      change ((x :: l1) ++ [a]) with (x :: (l1 ++ [a])). apply chain_cons. split; [|exact C1].
+      intros _. rewrite (hd_app_single l1 a (b :: l2)). rewrite <- E. exact Hr.
+    + exfalso. destruct Hp as [[P1 P2]|[P1 P2]]; congruence.
+    + exfalso. destruct Hp as [[P1 P2]|[P1 P2]]; congruence.
+Qed.
+
+Lemma adj_cons_split u v rest a b :
+  adj ((u, v) :: rest) a b -> adj rest a b \/ (a = u /\ b = v) \/ (a = v /\ b = u).
+Proof.
+  intros H. apply adj_cons in H. destruct H as [H|[H|H]]; auto; inversion H; subst; auto.
+Qed.
+
+Lemma cycle_uses_new_edge u v rest c :
+  simple_cycle (adj ((u, v) :: rest)) c -> 3 <= length c ->
+  (exists c', 3 <= length c' /\ simple_cycle (adj rest) c') \/ econn rest u v.
+Proof.
+  intros [Hne [Hnd Hch]] Hlen. apply chain_app in Hch. destruct Hch as [Hc [_ Hclose]].
+  specialize (Hclose Hne ltac:(discriminate)). cbn [hd] in Hclose.
+  assert (Hor : forall a b, (a = u /\ b = v) \/ (a = v /\ b = u) -> econn rest a b -> econn rest u v).
+  { intros a b [[E1 E2]|[E1 E2]] H; subst; auto. apply econn_sym. exact H. }
+  destruct (chain_split_pair (adj ((u, v) :: rest)) (adj rest) u v (adj_cons_split u v rest) c Hnd Hc)
+    as [HR|[l1 [a [b [l2 [E [Hp [C1 C2]]]]]]]].
+  - destruct (adj_cons_split _ _ _ _ _ Hclose) as [Hr|Hpair].
+    + left. exists c. split; auto. split; auto. split; auto. apply chain_app. split; auto. split; [simpl; auto|].
+      intros _ _. exact Hr.
+    + right. destruct c as [|x t]; [congruence|]. cbn [hd] in *.
+      apply (Hor (last (x :: t) 0) x Hpair). apply econn_sym. apply chain_reach_last. exact HR.
+  - right. subst c.
+    assert (Hlast : last (l1 ++ a :: b :: l2) 0 = last (b :: l2) 0).
+    { rewrite last_app_cons. reflexivity. }
+    assert (Hhd : hd 0 (l1 ++ a :: b :: l2) = hd 0 (l1 ++ [a])) by (symmetry; apply hd_app_single).
+    assert (Hba : econn rest b a).
+    { destruct (adj_cons_split _ _ _ _ _ Hclose) as [Hr|Hpair].
+      - (* b ~> last c -> hd c ~> a *)
+        eapply reach_trans; [apply chain_reach_last; exact C2|].
+        rewrite <- Hlast. eapply reach_step; [exact Hr|]. rewrite Hhd.
+        destruct (l1 ++ [a]) as [|z w] eqn:Ez; [destruct l1; discriminate|]. cbn [hd].
+        assert (La : last (z :: w) 0 = a) by (rewrite <- Ez; apply last_last).
+        rewrite <- La. apply chain_reach_last. exact C1.
+      - exfalso.
+        (* the closing pair is {u,v} = {a,b}: then l1 = [] and l2 = [], so the cycle has two nodes *)
+        assert (Hhab : hd 0 (l1 ++ a :: b :: l2) = a \/ hd 0 (l1 ++ a :: b :: l2) = b).
+        { destruct Hp as [[P1 P2]|[P1 P2]], Hpair as [[Q1 Q2]|[Q1 Q2]]; subst; auto. }
+        assert (Hlab : last (l1 ++ a :: b :: l2) 0 = a \/ last (l1 ++ a :: b :: l2) 0 = b).
+        { destruct Hp as [[P1 P2]|[P1 P2]], Hpair as [[Q1 Q2]|[Q1 Q2]]; subst; auto. }
+        assert (L1 : l1 = []).
+        { destruct l1 as [|z l1']; auto. exfalso. cbn [app hd] in Hhab.
+          apply (NoDup_app_disjoint (z :: l1') (a :: b :: l2) z Hnd); [left; reflexivity|].
+          destruct Hhab; subst; simpl; auto. }
+        assert (L2 : l2 = []).
+        { destruct l2 as [|z l2']; auto. exfalso. rewrite Hlast in Hlab.
+          assert (Hin : In (last (b :: z :: l2') 0) (z :: l2')).
+          { change (last (b :: z :: l2') 0) with (last (z :: l2') 0). apply last_In. discriminate. }
+          apply NoDup_app_r in Hnd. inversion Hnd as [|? ? Ha Hnd']; subst. inversion Hnd' as [|? ? Hb _]; subst.
+          destruct Hlab as [Hl|Hl]; rewrite Hl in Hin; [apply Ha; right; exact Hin | apply Hb; exact Hin]. }
+        subst. simpl in Hlen. lia. }
+    apply (Hor b a); [tauto | exact Hba].
+Qed.
+
+Lemma forest_mono e es : forest (e :: es) -> forest es.
+Proof.
+  intros H [c [Hl [Hne [Hnd Hch]]]]. apply H. exists c. split; auto. split; auto. split; auto.
+  eapply chain_mono; [|exact Hch]. intros a b Hab. apply adj_cons. left. exact Hab.
+Qed.
+
+Lemma forest_merges n es : simple_edges n es -> (forest es <-> merges n es = length es).
+Proof.
+  intros Hs. induction Hs as [|u v rest Hu Hv Huv Hn Hs IH].
+  - simpl. split; auto. intros _ [c [Hl [Hne [Hnd Hch]]]].
+    destruct c as [|x [|y t]]; simpl in Hl; try lia. simpl in Hch. destruct Hch as [[[]|[]] _].
+  - cbn [merges length]. cbv zeta. pose proof (merges_le n rest) as Hle.
+    pose proof (uf_conn n rest Hs u v Hu Hv) as Hconn.
+    split.
+    + intros Hf. apply forest_mono in Hf as Hfr. apply IH in Hfr.
+      destruct (Nat.eqb_spec (nthn (uf n rest) u) (nthn (uf n rest) v)) as [E|E]; [|simpl; lia].
+      exfalso. apply Hconn in E. destruct (reach_spath _ _ _ E) as [p [P1 [P2 [P3 [P4 P5]]]]].
+      apply Hf. exists p. split.
+      * destruct p as [|x [|y [|z t]]]; simpl in *; try lia; try congruence.
+        subst. exfalso. apply Hn. tauto.
+      * split; auto. split; auto. apply chain_app. split.
+        -- eapply chain_mono; [|exact P5]. intros a b Hab. apply adj_cons. left. exact Hab.
+        -- split; [simpl; auto|]. intros _ _. cbn [hd]. rewrite P1, P2. apply adj_cons. right. right. reflexivity.
+    + intros Hm.
+      destruct (Nat.eqb_spec (nthn (uf n rest) u) (nthn (uf n rest) v)) as [E|E]; [simpl in Hm; lia|].
+      assert (Hmr : merges n rest = length rest) by (simpl in Hm; lia).
+      apply IH in Hmr. intros [c [Hl Hc]].
+      destruct (cycle_uses_new_edge u v rest c Hc Hl) as [Hcyc|Hcon].
+      * apply Hmr. exact Hcyc.
+      * apply E. apply Hconn. exact Hcon.
+Qed.
+
+(** forest_iff_count: for ANY labelling whose classes are the connected components. *)
+Theorem forest_iff_count_lemma (n : nat) (es : list (nat * nat)) (comp : list nat) :
+  simple_edges n es -> length comp = n ->
+  (forall x y, x < n -> y < n -> (nthn comp x = nthn comp y <-> econn es x y)) ->
+  (forest es <-> n_labels comp + length es = n).
+Proof.
+  intros Hs Hlen Hc.
+  assert (Hk : n_labels comp = n_labels (uf n es)).
+  { apply n_labels_kernel; [rewrite uf_length; exact Hlen|].
+    intros i j Hi Hj. rewrite Hlen in Hi, Hj. rewrite (Hc i j Hi Hj), (uf_conn n es Hs i j Hi Hj). reflexivity. }
+  pose proof (uf_count n es Hs) as Hcount. pose proof (merges_le n es) as Hle.
+  rewrite (forest_merges n es Hs). rewrite Hk. lia.
+Qed.
+
+(** * Bridge to the model: the edge list of a symmetric loop-free pattern *)
+Definition edges_of (g : graph) : list (nat * nat) :=
+  flat_map (fun u => map (fun v => (u, v)) (filter (fun v => u <? v) (row g u))) (nodes g).
+
+Lemma edges_of_In g u v : In (u, v) (edges_of g) <-> u < v /\ In v (row g u).
+Proof.
+  unfold edges_of. rewrite in_flat_map. split.
+  - intros [x [Hx H]]. apply in_map_iff in H. destruct H as [y [E Hy]]. inversion E; subst.
+    apply filter_In in Hy. destruct Hy as [Hy Hlt]. apply Nat.ltb_lt in Hlt. auto.
+  - intros [Hlt Hin]. exists u. split; [apply nodes_In; eapply row_nonempty_lt; eauto|].
+    apply in_map_iff. exists v. split; auto. apply filter_In. split; auto. apply Nat.ltb_lt. exact Hlt.
+Qed.
+
+Definition sym_graph (g : graph) : Prop := forall u v, In v (row g u) -> In u (row g v).
+Definition loop_free (g : graph) : Prop := forall u, ~ In u (row g u).
+
+Lemma adj_edges_of g u v : sym_graph g -> loop_free g -> (adj (edges_of g) u v <-> edge g u v).
+Proof.
+  intros Hs Hl. unfold adj, edge. rewrite !edges_of_In. split.
+  - intros [[_ H]|[_ H]]; auto.
+  - intros H. destruct (Nat.lt_total u v) as [Hlt|[E|Hgt]]; [left; auto | subst; exfalso; eapply Hl; eauto | right; auto].
+Qed.
+
+Lemma NoDup_map_pair (u : nat) (l : list nat) : NoDup l -> NoDup (map (fun v => (u, v)) l).
+Proof.
+  induction 1 as [|x t Hx Hnd IH]; simpl; constructor; auto.
+  intros H. apply in_map_iff in H. destruct H as [y [E Hy]]. inversion E; subst. contradiction.
+Qed.
+
+Lemma NoDup_flat_map_fst (L : list nat) (f : nat -> list nat) :
+  NoDup L -> (forall u, NoDup (f u)) -> NoDup (flat_map (fun u => map (fun v => (u, v)) (f u)) L).
+Proof.
+  intros HL Hf. induction HL as [|a L' Ha HL' IH]; simpl; [constructor|].
+  apply NoDup_app_intro; auto.
+  - apply NoDup_map_pair. apply Hf.
+  - intros [x y] H1 H2. apply in_map_iff in H1. destruct H1 as [v [E _]]. inversion E; subst.
+    apply in_flat_map in H2. destruct H2 as [u [Hu H2]]. apply in_map_iff in H2. destruct H2 as [w [E2 _]].
+    inversion E2; subst. contradiction.
+Qed.
+
+Lemma simple_edges_of_ordered n es :
+  NoDup es -> (forall a b, In (a, b) es -> a < b /\ b < n) -> simple_edges n es.
+Proof.
+  intros Hnd. induction Hnd as [|[u v] rest Hx Hnd IH]; intros Hr; [constructor|].
+  destruct (Hr u v (or_introl eq_refl)) as [Huv Hv]. constructor; try lia.
+  - intros [H|H]; [contradiction|]. destruct (Hr v u (or_intror H)). lia.
+  - apply IH. intros a b H. apply Hr. right. exact H.
+Qed.
+
+Lemma simple_edges_of g :
+  wf_graph g -> (forall u, NoDup (row g u)) -> simple_edges (length g) (edges_of g).
+Proof.
+  intros Hwf Hnd. apply simple_edges_of_ordered.
+  - unfold edges_of. apply NoDup_flat_map_fst; [apply seq_NoDup|]. intros u. apply NoDup_filter. apply Hnd.
+  - intros a b H. apply edges_of_In in H. destruct H as [Hlt Hin]. split; auto. eapply Hwf; eauto.
+Qed.
+
+(** Counting: nnz = 2 * (number of undirected edges). *)
+Lemma flat_map_length {A B} (f : A -> list B) (l : list A) :
+  length (flat_map f l) = sumn (map (fun x => length (f x)) l).
+Proof. induction l as [|x t IH]; simpl; auto. rewrite app_length, IH. reflexivity. Qed.
+
+Lemma filter_split_length {A} (p : A -> bool) (l : list A) :
+  length l = length (filter p l) + length (filter (fun x => negb (p x)) l).
+Proof. induction l as [|x t IH]; simpl; auto. destruct (p x); simpl; lia. Qed.
+
+Lemma sumn_map_add {A} (f h : A -> nat) (l : list A) :
+  sumn (map (fun x => f x + h x) l) = sumn (map f l) + sumn (map h l).
+Proof. induction l as [|x t IH]; simpl; auto. rewrite IH. lia. Qed.
+
+Lemma sumn_map_ext {A} (f h : A -> nat) (l : list A) :
+  (forall x, In x l -> f x = h x) -> sumn (map f l) = sumn (map h l).
+Proof.
+  induction l as [|x t IH]; simpl; intros H; [reflexivity|]. rewrite (H x) by auto. rewrite IH; auto.
+Qed.
+
+Lemma count_swap {A B} (f : A -> B -> bool) (L : list A) (M : list B) :
+  sumn (map (fun u => length (filter (f u) M)) L) = sumn (map (fun v => length (filter (fun u => f u v) L)) M).
+Proof.
+  induction L as [|a L' IH]; simpl.
+  - induction M as [|b M' IHM]; simpl; auto.
+  - rewrite IH. clear IH.
+    rewrite (sumn_map_ext (fun v => length (if f a v then a :: filter (fun u => f u v) L' else filter (fun u => f u v) L'))
+                          (fun v => (if f a v then 1 else 0) + length (filter (fun u => f u v) L')) M).
+    + rewrite sumn_map_add. f_equal. induction M as [|b M' IHM]; simpl; auto.
+      destruct (f a b); simpl; rewrite IHM; reflexivity.
+    + intros v _. destruct (f a v); reflexivity.
+Qed.
+
+Lemma count_via_seq (p : nat -> bool) (l : list nat) (n : nat) :
+  NoDup l -> (forall x, In x l -> x < n) ->
+  length (filter p l) = length (filter (fun v => p v && memn v l) (seq 0 n)).
+Proof.
+  intros Hnd Hr. apply Permutation_length. apply NoDup_Permutation.
+  - apply NoDup_filter. exact Hnd.
+  - apply NoDup_filter. apply seq_NoDup.
+  - intros x. rewrite !filter_In, in_seq, andb_true_iff, memn_In. split.
+    + intros [H1 H2]. split; [split; [lia | apply Hr; exact H1] | auto].
+    + tauto.
+Qed.
+
+Lemma nnz_rows g : nnz g = sumn (map (fun u => length (row g u)) (nodes g)).
+Proof.
+  unfold nnz, nodes. f_equal. apply nth_ext with (d := 0) (d' := 0).
+  - rewrite !map_length, seq_length. reflexivity.
+  - intros i Hi. rewrite map_length in Hi.
+    rewrite (nth_map_lt _ g i [] 0) by exact Hi.
+    rewrite nth_map_seq by exact Hi. reflexivity.
+Qed.
+
+Lemma nnz_edges_of g :
+  wf_graph g -> sym_graph g -> loop_free g -> (forall u, NoDup (row g u)) ->
+  nnz g = 2 * length (edges_of g).
+Proof.
+  intros Hwf Hs Hl Hnd. set (n := length g).
+  assert (Hlen : length (edges_of g) = sumn (map (fun u => length (filter (fun v => u <? v) (row g u))) (nodes g))).
+  { unfold edges_of. rewrite flat_map_length. apply sumn_map_ext. intros u _. apply map_length. }
+  rewrite nnz_rows, Hlen.
+  (* |row u| = hi u + lo u *)
+  rewrite (sumn_map_ext (fun u => length (row g u))
+             (fun u => length (filter (fun v => u <? v) (row g u)) + length (filter (fun v => v <? u) (row g u))) (nodes g)).
+  2:{ intros u _. rewrite (filter_split_length (fun v => u <? v) (row g u)). f_equal.
+      f_equal. apply filter_ext_in. intros v Hv.
+      assert (v <> u) by (intros E; subst; eapply Hl; eauto).
+      destruct (Nat.ltb_spec u v), (Nat.ltb_spec v u); simpl; auto; lia. }
+  rewrite sumn_map_add.
+  assert (Hswap : sumn (map (fun u => length (filter (fun v => v <? u) (row g u))) (nodes g)) =
+                  sumn (map (fun u => length (filter (fun v => u <? v) (row g u))) (nodes g))).
+  { rewrite (sumn_map_ext _ (fun u => length (filter (fun v => (v <? u) && memn v (row g u)) (nodes g))) (nodes g)).
+    2:{ intros u _. apply count_via_seq; [apply Hnd|]. intros x Hx. eapply Hwf; eauto. }
+    rewrite (count_swap (fun u v => (v <? u) && memn v (row g u)) (nodes g) (nodes g)).
+    apply sumn_map_ext. intros v Hv. symmetry.
+    rewrite (count_via_seq (fun u => v <? u) (row g v) n); [|apply Hnd|intros x Hx; eapply Hwf; eauto].
+    f_equal. apply filter_ext_in. intros u Hu. f_equal.
+    destruct (memn u (row g v)) eqn:E1, (memn v (row g u)) eqn:E2; auto.
+    - apply memn_In in E1. apply Hs in E1. apply memn_In in E1. congruence.
+    - apply memn_In in E2. apply Hs in E2. apply memn_In in E2. congruence. }
+  rewrite Hswap. lia.
+Qed.
+
+Lemma simple_cycle_ext (E F : nat -> nat -> Prop) c :
+  (forall a b, E a b -> F a b) -> simple_cycle E c -> simple_cycle F c.
+Proof. intros H [A [B C]]. split; auto. split; auto. eapply chain_mono; eauto. Qed.
+
+Lemma resolve_directed_false g directed :
+  resolve_directed g directed = Ok false -> is_symmetric g = true.
+Proof.
+  destruct directed as [[|]|]; simpl; try discriminate.
+  - destruct (is_symmetric g); [auto | discriminate].
+  - destruct (is_symmetric g); simpl; [auto | discriminate].
+Qed.
+
+(** is_acyclic on an undirected graph (canonical rows: no duplicate column index). *)
+Theorem is_acyclic_undirected_lemma (g : graph) (directed : option bool) (comp : list nat) (b : bool) :
+  wf_graph g -> (forall u, NoDup (row g u)) -> components_contract g false comp ->
+  resolve_directed g directed = Ok false ->
+  is_acyclic g directed comp = Ok b ->
+  (b = true <-> ~ exists c, ucycle g c).
+Proof.
+  intros Hwf Hnd [Hlen Hc] Hd. pose proof (resolve_directed_false g directed Hd) as Hsym0.
+  pose proof (proj1 (is_symmetric_spec g) Hsym0) as Hsym. unfold is_acyclic. rewrite Hd.
+  destruct (has_loops g) eqn:Hl.
+  - intros H; inversion H; subst b. split; [discriminate|]. intros Hn. exfalso. apply Hn.
+    apply has_loops_spec in Hl. destruct Hl as [u [Hu Huu]]. exists [u]. split; [|simpl; lia].
+    split; [discriminate|]. split; [constructor; [intros []|constructor]|]. simpl. auto.
+  - intros H; inversion H; subst b. clear H. pose proof (proj1 (has_loops_false g) Hl) as Hlf.
+    pose proof (nnz_edges_of g Hwf Hsym Hlf Hnd) as Hnnz.
+    pose proof (simple_edges_of g Hwf Hnd) as Hse.
+    assert (Hconn : forall x y, x < length g -> y < length g ->
+              (nthn comp x = nthn comp y <-> econn (edges_of g) x y)).
+    { intros x y Hx Hy. rewrite (Hc x y Hx Hy). unfold wconn, econn. split; apply reach_mono; intros a c0 Hac.
+      - apply adj_edges_of; auto. destruct Hac as [Hac|Hac]; [exact Hac | apply Hsym; exact Hac].
+      - left. apply adj_edges_of in Hac; auto. }
+    pose proof (forest_iff_count_lemma (length g) (edges_of g) comp Hse Hlen Hconn) as Hf.
+    unfold count_criterion. rewrite Hnnz. rewrite Nat.mul_comm, Nat.div_mul by lia.
+    rewrite Z.eqb_eq. split.
+    + intros E [c [Hcy Hl2]]. assert (Hfo : forest (edges_of g)) by (apply Hf; lia).
+      apply Hfo. exists c. split.
+      * destruct Hcy as [Hne [_ Hch]]. destruct c as [|x [|y [|z t]]]; simpl in *; try lia; try congruence.
+        exfalso. apply (Hlf x). tauto.
+      * eapply simple_cycle_ext; [|exact Hcy]. intros a c0 Hac. apply adj_edges_of; auto.
+    + intros Hno. assert (Hfo : forest (edges_of g)).
+      { intros [c [Hl3 Hcy]]. apply Hno. exists c. split; [|lia].
+        eapply simple_cycle_ext; [|exact Hcy]. intros a c0 Hac. apply adj_edges_of in Hac; auto. }
+      apply Hf in Hfo. lia.
+Qed.
+
 (** * break_cycles: BOUNDED theorems (exhaustive evaluation, n <= 4) and the refutation *)
 
 Definition out_degree (g : graph) (root : list nat) : nat := sumn (map (fun r => length (row g r)) root).
